@@ -17,6 +17,8 @@ HEADERS = [
     ("const_first", "<const N: usize, G: 'static>", "", "", "", "pub "),
     ("supertraits", "", ": Sync + 'static", "", "", "pub "),
     ("where_clause", "<G>", "", "where G: Clone + 'static", "", "pub "),
+    ("where_self_only", "", "", "where Self: Sync + 'static", "", "pub "),
+    ("where_mixed_self", "<G>", "", "where G: Clone + 'static, Self: Sync", "", "pub "),
     ("unsafe_trait", "", "", "", "unsafe ", "pub "),
     ("trait_attrs", "", "", "", "", "#[doc = \"trait doc\"] #[allow(unused_variables)] #[deprecated(note = \"d\")] pub "),
 ]
@@ -33,6 +35,7 @@ METHODS = [
     ("raw_ident_param", "fn m{n}(&self, r#type: u8) -> u8;", True),
     ("attrs", "#[doc = \"d\"] #[must_use] fn m{n}(&self) -> u8;", True),
     ("cfg_off", "#[cfg(any())] fn m{n}(&self) -> NonExistent{n};", True),
+    ("cfg_off_assoc_fn", "#[cfg(any())] fn m{n}() -> NonExistent{n};", True),
     ("unsafe_fn", "unsafe fn m{n}(&self) -> u8;", True),
     ("where_sized", "fn m{n}(&self) -> u8 where Self: Sized;", False),
     ("dyn_arg", "fn m{n}(&self, f: &dyn Fn(u8) -> u8) -> u8;", True),
@@ -85,7 +88,7 @@ def render(i, h, s, ms):
     want = ["first"]
     for n, (mk, decl, _dyn) in enumerate(ms):
         decls.append(decl.replace("{n}", str(n)))
-        if mk != "cfg_off":
+        if mk not in ("cfg_off", "cfg_off_assoc_fn"):
             want.append("m%d" % n)
     decls.append("fn last(&self) -> u8;")
     want.append("last")
